@@ -135,6 +135,20 @@ def run_impl(case):
                 res['joint_ok'] = all(o.dtype == e.dtype and o.shape == e.shape and np.array_equal(o, e)
                                       for o, e in zip(outs, singly)) and \
                     np.array_equal(outs[(len(group) - rot) % len(group)], out)
+                # indexers of DIFFERENT shapes in one joint fetch (a nested indexer without its parent's first row):
+                # an index relative to the end of an axis means each indexer's own end
+                if res['joint_ok'] and cur.shape and cur.shape[0] >= 2:
+                    shorter = DaskLazyIndexer(cur, (slice(1, None),))
+                    try:
+                        single_short = np.asarray(shorter[k2])
+                    except Exception:   # noqa: BLE001  (the index is not valid for the shorter axis)
+                        single_short = None
+                    if single_short is not None:
+                        for pair in ([cur, shorter], [shorter, cur]):
+                            o2 = DaskLazyIndexer.get(pair, k2)
+                            want = [out, single_short] if pair[0] is cur else [single_short, out]
+                            if not all(a.shape == b.shape and np.array_equal(a, b) for a, b in zip(o2, want)):
+                                res['joint_ok'] = False
         res['out'] = np.asarray(out)
     except Exception as e:   # noqa: BLE001 - classification is the point
         res['err'] = type(e).__name__
@@ -298,6 +312,17 @@ def run_readset_impl(case):
             res['same_ok'] = bool(np.array_equal(outs[0], res['out']) and np.array_equal(outs[1], res['out'] * 3 + 1)
                                   and np.array_equal(outs[2], res['out']))
             res['same_calls'] = sorted(c[1:] for c in calls if c[0] == 0)
+            # a lazy array restricted to a window that is empty on its first axis only (on a chunk boundary): no stored
+            # chunk overlaps it, so nothing is read, and the result is the empty array of the right shape
+            if len(shape) >= 2:
+                del calls[:]
+                c0 = chunks[0][0]
+                win = (slice(c0, c0),) + tuple(slice(0, n) for n in shape[1:])
+                try:
+                    out_e = np.asarray(DaskLazyIndexer(store.get_dask_array('x', chunks, np.int64, index=win))[()])
+                    res['empty_window'] = (out_e.shape, len([c for c in calls if c[0] == 0]))
+                except Exception as e:   # noqa: BLE001
+                    res['empty_window'] = (type(e).__name__, len([c for c in calls if c[0] == 0]))
         except Exception as e:   # noqa: BLE001
             res['err'] = type(e).__name__
     return res
@@ -383,6 +408,12 @@ def evaluate(ctx, cases):
                     elif v is None and exp.size and impl.get('same_calls') is not None and impl['same_calls'] != want:
                         v = (f"joint get() of three indexers over one stored array read chunks {impl['same_calls']} "
                              f'instead of each overlapping chunk {want} once')
+                    if v is None and impl.get('empty_window') is not None:
+                        shp, nread = impl['empty_window']
+                        if shp != (0,) + tuple(c['shape'][1:]) or nread:
+                            v = (f'a lazy array restricted to a window that is empty on the first axis gave {shp} after '
+                                 f'{nread} chunk read(s); expected an empty array of shape '
+                                 f'{(0,) + tuple(c["shape"][1:])} and no read')
                     ctx.traces_validated += 1
                 ctx.tag('readset')
             ctx.count(lines[2 * i], impl.get('out') is not None and impl['out'].size > 0,
